@@ -42,7 +42,7 @@ def merge_value(prev_value: list=None, next_value: list=None, glue: str=''):
         return prev_value
 
     result = prev_value or next_value
-    return result and result[:]
+    return result[:] if result is not None else result
 
 def merge_declarations(dest: AbbreviationAttribute, src: AbbreviationAttribute, config: Config):
     "Merges data from `src` attribute into `dest` and returns it"
